@@ -62,7 +62,11 @@ def generic_main(mod, modname, pid, tier, seed, repo, t0):
     log(f"[{pid}/{tier}] {len(jobs)} tasks on {nproc} processes, repo={repo}, seed={seed}")
     ctx = mp.get_context("fork")
     results, skipped = [], 0
-    with ctx.Pool(nproc, initializer=common._worker_init, initargs=(heavy, repo)) as pool:
+    # The patched package is loaded ONCE here and every task runs in a child forked from this pristine state
+    # (maxtasksperchild=1): module-level caches / globals of the package never leak from one task into another,
+    # so every history a task exercises is spelled out in the task itself and replays deterministically.
+    common._worker_init(heavy, repo)
+    with ctx.Pool(nproc, maxtasksperchild=1) as pool:
         it = pool.imap_unordered(common.run_task_symbolic, jobs, chunksize=getattr(mod, "CHUNK", 1))
         for k in range(len(jobs)):
             remaining = budget - (time.time() - t0)
@@ -188,6 +192,8 @@ def finish(mod, modname, pid, tier, seed, repo, t0, results, skipped, heavy, n_j
     if herr:
         status = EXIT_HARNESS if status == EXIT_OK else status
     wall = time.time() - t0
+    slow = sorted(((r.get("wall_s", 0), r.get("key")) for r in results), reverse=True)[:5]
+    log(f"[{pid}] slowest tasks: " + "; ".join(f"{w:.1f}s {k}" for w, k in slow))
     cov = {
         "states": max(1, tot["paths"]),
         "transitions": max(1, tot["branch_points"] + tot["obligations"]),
